@@ -35,6 +35,7 @@ int __wrap_open(const char *path, int flags, ...)
     }
     if (is_random_device(path)) {
         simrng_t *s = simrng_cur();
+        if (s->on_call) s->on_call(s->on_call_ctx);
         s->calls++;
         if (s->transient > 0 || s->perm_fail != 0) {
             s->perm++;
